@@ -483,6 +483,8 @@ Section step.
       + unfold fin. simpl. split; [|reflexivity]. split; [exact I|]. unfold obj_ok. rewrite Eo, Edo. exact Logic.I.
     - (* another registry *)
       unfold live. simpl. split; [exact II | reflexivity].
+    - (* a prefix definition is outside the alphabet *)
+      discriminate.
   Qed.
 End step.
 
@@ -809,6 +811,35 @@ Proof.
   - unfold resolve. rewrite Hk. reflexivity.
   - intros dk x Hx. simpl. destruct (u_base ud); [apply fold_dims_old|]; exact Hx.
 Qed.
+(** a prefix definition does not touch the unit and dimension tables: names that are keys of the
+    unit table keep their definition (the hypothesis [stableb] of [define_conservative_thm] is
+    about the other names, whose reading may change with the new prefix) *)
+Lemma add_prefix_key_tables k p r :
+  r_units (add_prefix_key k p r) = r_units r ∧ r_dims (add_prefix_key k p r) = r_dims r.
+Proof. split; reflexivity. Qed.
+Lemma add_prefix_tables r p : r_units (add_prefix r p) = r_units r ∧ r_dims (add_prefix r p) = r_dims r.
+Proof.
+  unfold add_prefix.
+  assert (F : ∀ l r0, r_units (fold_left (λ r a, add_prefix_key a p r) l r0) = r_units r0 ∧
+                      r_dims (fold_left (λ r a, add_prefix_key a p r) l r0) = r_dims r0).
+  { induction l as [|a l IH]; intros r0; simpl; [auto|]. destruct (IH (add_prefix_key a p r0)) as [H1 H2].
+    rewrite H1, H2. split; reflexivity. }
+  destruct (F (p_aliases p)
+              (match p_sym p with
+               | Some s => if String.eqb s "" then add_prefix_key (p_name p) p r
+                           else add_prefix_key s p (add_prefix_key (p_name p) p r)
+               | None => add_prefix_key (p_name p) p r
+               end)) as [H1 H2].
+  rewrite H1, H2. destruct (p_sym p) as [sy|]; [destruct (String.eqb sy "")|]; split; reflexivity.
+Qed.
+Theorem define_prefix_keeps_registered_thm r p k d :
+  r_units r !! k = Some d →
+  resolve (add_prefix r p) k = Ok d ∧ r_dims (add_prefix r p) = r_dims r.
+Proof.
+  intros Hk. destruct (add_prefix_tables r p) as [H1 H2]. split; [|exact H2].
+  unfold resolve. rewrite H1, Hk. reflexivity.
+Qed.
+
 (** * Witnesses on the regenerated default registry: where pint's caches are NOT transparent *)
 From PintV Require Import Model.CacheRun Gen.DefaultDefs Gen.DefaultReg.
 
@@ -926,6 +957,11 @@ Definition h_plain : list op :=
 Lemma default_reg_play : playb default_reg demo_names = true.
 Proof. vm_compute. reflexivity. Qed.
 Lemma smoot_stable : stableb default_reg (add_unit_def default_reg smoot) demo_names = true.
+Proof. vm_compute. reflexivity. Qed.
+Lemma bronto_stable : stableb default_reg (add_prefix default_reg bronto) demo_names = true.
+Proof. vm_compute. reflexivity. Qed.
+Lemma bronto_new_reading :
+  bool_decide (resolve default_reg "brontometer" = resolve (add_prefix default_reg bronto) "brontometer") = false.
 Proof. vm_compute. reflexivity. Qed.
 Lemma demo_names_nontrivial :
   inS demo_names "kiloinch" && inS demo_names "cm" && inS demo_names "pixels_per_centimeter" &&
